@@ -116,6 +116,7 @@ inductive Ev
   | recycle (a : String)                                    -- the recycler's timer for node `a`
   | reload (rule : Rule)                                    -- rule update keeping the breakers
   | rebuild (rule : Rule) (now : Nat) (reuseStat : Bool)    -- rule update with a changed breaker part: all breakers rebuilt Closed
+  | clear                                                   -- `LoadRuleOfResource(res, nil)`
 
 def step (r : Res) : Ev → Res
   | .check now ord => (r.check now ord).1
@@ -124,6 +125,7 @@ def step (r : Res) : Ev → Res
   | .recycle a => r.recycle a
   | .reload rule => { r with rule := rule }
   | .rebuild rule now reuse => r.rebuild rule now reuse
+  | .clear => r.clear
 
 /-- **A reload that rebuilds the node breakers (all Closed) does not change the recycler's status map**:
     a node scheduled before the reload is still scheduled, a node marked recovered is still marked. -/
@@ -232,6 +234,7 @@ private theorem recovered_step {r : Res} {a : String} (h : Recovered r.status a)
     exact recovered_recycle h b hb
   | reload rule => exact h
   | rebuild rule now reuse => exact h
+  | clear => exact h
 
 private theorem recovered_foldl {a : String} (evs : List Ev) (r₁ : Res) (h0 : Recovered r₁.status a)
     (hno : ∀ e ∈ evs, e ≠ .recycle a) : Recovered (evs.foldl step r₁).status a := by
